@@ -571,7 +571,8 @@ def run_unit_sym(unit, known_ids, validate_n=2, stop_on_violation=False):
                 rec['samples'].append(dict(obligation=oid, path_condition=[str(z3.simplify(c))[:160] for c in ctx.pc[:6]],
                                            negated_post=str(z3.simplify(neg))[:200], verdict=r))
         # trace for translator validation (engine prediction under a model vs the real build)
-        if outcome == 'done' and r0 == 'sat' and n_traces[0] < validate_n and h.observed:
+        if (outcome == 'done' and r0 == 'sat' and n_traces[0] < validate_n and h.observed
+                and not ctx.exp_atoms and not ctx.log_atoms):     # models of uninterpreted exp/log are not faithful
             m = m0
             obs = []
             for name, v in h.observed:
